@@ -54,6 +54,7 @@ class Field:
     doc: bool = False
     qualified: bool = False                # spell arbitrary-int field types as arbitrary_int::uN
     arg_order: str = 'ras'                 # order of the attribute arguments: r = range, a = access, s = stride
+    opt_path: str = ''                     # spelling of `Option` for kind o: '' | 'core::option::' | '::core::option::' | 'std::option::'
 
     @property
     def w(self):
